@@ -18,18 +18,20 @@ def run_script(driver, script, cfg=None, want_solver=False):
     driver.reset()
     res_lean = [driver.send(pslib.to_line(d)) for d in script]
     out = {"results_py": res_py, "results_lean": res_lean, "real": real, "py": None, "lean": None,
-           "owners": None, "solver": None, "init_error": None}
+           "owners": None, "solver": None, "init_error": None, "py_raw": None, "lean_raw": None}
     if real.problem is None:
         return out
     try:
         s = real.initialize(**cfg)
         out["solver"] = s
-        out["py"] = z3walk.canon([z3walk.sx(a) for a in s._solver.assertions()])
+        out["py_raw"] = [z3walk.sx(a) for a in s._solver.assertions()]
+        out["py"] = z3walk.canon(out["py_raw"])
     except Exception as e:  # noqa: BLE001
         out["init_error"] = f"{type(e).__name__}: {e}"
     _, ll = driver.send_multi(lean_cfg(cfg))
     out["owners"] = [l.split("\t", 1)[0] for l in ll]
-    out["lean"] = z3walk.canon([l.split("\t", 1)[1] for l in ll])
+    out["lean_raw"] = [l.split("\t", 1)[1] for l in ll]
+    out["lean"] = z3walk.canon(out["lean_raw"])
     return out
 
 
